@@ -6,6 +6,7 @@ every order in which the callbacks run.
 -/
 import ToastyVerif.Model.Sample
 import ToastyVerif.Props.C03
+import ToastyVerif.Gen.Plumbing
 
 namespace C06
 open Sample PixelBase Pixels
@@ -155,5 +156,9 @@ theorem parallel_equals_serial (leaves : List Pos) (st : Store) (n cap : Nat) (h
 /-- a FITS override on a PNG pyramid reverses the rows; a PNG pyramid without override does not -/
 example : invert "png".toList (some "fits".toList) = true ∧ invert "png".toList none = false ∧
     invert "fits".toList (some "npy".toList) = false := by decide
+
+/-- **entry_points**: the call sites through which this property's workflows reach the modelled functions have, in the source as
+it is now, the argument plumbing the model assumes (facts re-extracted on every run, `Gen/Plumbing.lean`) -/
+theorem entry_points : Gen.Plumbing.builder_toast_base_forwards_coordsys = true ∧ Gen.Plumbing.sample_layer_forwards_coordsys = true ∧ Gen.Plumbing.sample_layer_filtered_forwards_coordsys = true ∧ Gen.Plumbing.cli_allsky_projection_table = true := by decide
 
 end C06
